@@ -226,14 +226,14 @@ set_option linter.unusedSimpArgs false in
 theorem witness_original_under_O : (runO 3 scopingWitness).ending = "raised:UnboundLocalError" := by
   simp [runO, scopingWitness, collect, defOf, paramNames, execL, exec1, callOf, simpleExec, isAssertStmt, assignTarget, evalThen, evalE,
     St.init, St.assign, Env.set, Env.get, callFn, evalArgs, List.lookup, bindTop, bindS, oguard, oapp, coreE, coreX, bindL, declaredGlobals, globalsOf,
-    condE, isDebugTest, Val.truthy, exprStmt, isConst, printArgs, St.lookup, St.unbound, St.isLocal, asCall, observe, canonNames, insertName, isPlainDef, argPlain]
+    condE, isDbgName, debugCmp, debugSense, isDebugTest, Val.truthy, exprStmt, isConst, printArgs, St.lookup, St.unbound, St.isLocal, asCall, observe, canonNames, insertName, isPlainDef, argPlain]
 
 set_option linter.unusedSimpArgs false in
 theorem witness_minified_under_O : (runO 3 (travModule removeDebug scopingWitness)).ending = "normal" := by
   simp [runO, scopingWitness, travModule, travBody, travStmt, removeDebug, filterSuite, canRemoveDebug, isDebugName, zeroStmt,
     collect, defOf, paramNames, execL, exec1, callOf, simpleExec, isAssertStmt, assignTarget, evalThen, evalE,
     St.init, St.assign, Env.set, Env.get, callFn, evalArgs, List.lookup, bindTop, bindS, oguard, oapp, coreE, coreX, bindL, declaredGlobals, globalsOf,
-    condE, isDebugTest, Val.truthy, exprStmt, isConst, printArgs, St.lookup, St.unbound, St.isLocal, asCall, observe, canonNames, insertName, isPlainDef, argPlain]
+    condE, isDbgName, debugCmp, debugSense, isDebugTest, Val.truthy, exprStmt, isConst, printArgs, St.lookup, St.unbound, St.isLocal, asCall, observe, canonNames, insertName, isPlainDef, argPlain]
 
 /-- T01.10′ (negative): without the side condition remove_debug does not preserve the behaviour under `-O` -/
 theorem remove_debug_changes_scoping :
